@@ -185,7 +185,7 @@ pub fn run(env: &Env, run: &Run) -> (Stats, Coverage) {
         st.merge(s);
     }
     // (c) tree over cased / width / compatibility symbols
-    let sigma = sigma08();
+    let sigma = crate::sig::rotated(env, sigma08(), run.seed);
     let n = run.tier.pick(4, 5);
     st.merge(strtree(&sigma, n, |_c, s, st| {
         for p in Prof::ALL {
